@@ -144,6 +144,10 @@ func runC20(c *Ctx) error {
 	var ids []*m.Address
 	for i := 0; i < 4; i++ {
 		a, err := newIdentity()
+		if i == 3 {
+			// the friend entry of the configurations: friends must lie in an accepted address range
+			a, err = newGeoIdentity()
+		}
 		if err != nil {
 			return err
 		}
